@@ -395,8 +395,7 @@ def run_impl(case):
     trace, nb = run_sched(op)
     if trace.startswith("EXC"):
         return {"out": "harness-exc " + trace}
-    from xknx.cemi.cemi_handler import REQUEST_TO_CONFIRMATION_TIMEOUT as T
-    return {"out": trace, "line": f"c14 monitor {T * 1_000_000} {trace}", "expect": "accept", "nb": nb}
+    return {"out": trace, "line": f"c14 monitor {trace}", "expect": "accept", "nb": nb}
 
 
 def oracle(case, out):
